@@ -2,6 +2,7 @@
 import os, sys, re, json, decimal
 import lib
 from lib import gz, gtext, glist, gbool, gopt, gpair
+import c08_ext
 
 THEOREMS = ['C08_int_text_roundtrip', 'C08_int_out_lex', 'C08_bounded_native_exact',
             'C08_bounded_roundtrip', 'C08_integer_roundtrip', 'C08_integer_in_lex']
@@ -9,6 +10,11 @@ THEOREMS = ['C08_int_text_roundtrip', 'C08_int_out_lex', 'C08_bounded_native_exa
 THEOREMS_DT = ['C08_dt_offset_roundtrip', 'C08_dt_usec_six_digits', 'C08_dt_usec_exact', 'C08_dt_usec_digits', 'C08_dt_datetime_roundtrip', 'C08_dt_time_roundtrip', 'C08_dt_date_roundtrip', 'C08_dt_datetime_out_lex_partial', 'C08_dt_datetime_out_lex_refuted', 'C08_dt_datetime_out_lex_iff', 'C08_dt_time_out_lex', 'C08_dt_date_out_lex', 'C08_dt_datetime_in_lex', 'C08_dt_time_in_lex', 'C08_dt_date_in_lex', 'C08_dt_datetime_reader_shape', 'C08_dt_datetime_never_crashes', 'C08_dt_datetime_vfault_iff', 'C08_dt_datetime_no_trailing_junk', 'C08_dt_time_never_crashes', 'C08_dt_time_vfault_iff', 'C08_dt_date_never_crashes', 'C08_dt_date_vfault_iff']
 THEOREMS_DUR = ['C08_duration_roundtrip', 'C08_duration_out_lex', 'C08_duration_out_lex_all', 'C08_duration_in_lex', 'C08_duration_range_abs', 'C08_duration_in_lex_strong', 'C08_duration_reader_total', 'C08_duration_out_of_range', 'C08_dur_no_trailing_junk', 'C08_dur_suffix_rejected', 'C08_boolean_roundtrip', 'C08_boolean_out_lex', 'C08_boolean_in_lex']
 THEOREMS_BIN = ['C08_base64_roundtrip', 'C08_hex_roundtrip', 'C08_base64_out_lex', 'C08_hex_out_lex', 'C08_base64_reader_total', 'C08_hex_reader_total', 'C08_hex_reader_bytes', 'C08_base64_reader_bytes', 'C08_base64_in_lex', 'C08_hex_in_lex']
+
+THEOREMS_RE = c08_ext.THEOREMS_RE
+THEOREMS_DEC = ['C08_dec_roundtrip', 'C08_dec_in_lex', 'C08_dec_out_lex_partial', 'C08_dec_out_lex_refuted',
+                'C08_dec_out_lex_scientific', 'C08_dec_out_lex_iff', 'C08_dec_reader_total', 'C08_dec_reader_finite']
+THEOREMS_UUID = ['C08_uuid_roundtrip', 'C08_uuid_out_lex', 'C08_uuid_in_lex', 'C08_uuid_reader_total', 'C08_uuid_reader_range']
 
 INT_TYPES = ['Integer', 'UnsignedInteger', 'PositiveInteger', 'Integer8', 'Integer16', 'Integer32',
              'Integer64', 'UnsignedInteger8', 'UnsignedInteger16', 'UnsignedInteger32', 'UnsignedInteger64']
@@ -623,38 +629,15 @@ def family_binary(check, tier):
 
 # ------------------------------------------------------------------ decimal / double / uuid / unicode (oracle only)
 def family_other(check, tier):
-    """Decimal, Double, Uuid, Unicode, AnyUri: decided by the direct oracle only (round trip +
-    lxml lexical validity); these leaf codecs delegate to decimal/float/uuid of the standard
-    library and are not modelled in Coq (stated in the evidence)."""
+    """Double, Unicode, AnyUri: decided by the direct oracle only (round trip + lxml lexical
+    validity); these leaf codecs delegate to float() / repr() / str of the standard library and are
+    not modelled in Coq (stated in the evidence).  Decimal and Uuid are modelled: c08_ext.py."""
     import decimal, uuid, struct, math
     from spyne.protocol import ProtocolBase
-    from spyne.model.primitive import Decimal, Double, Uuid, Unicode, AnyUri
+    from spyne.model.primitive import Double, Unicode, AnyUri
     prot = ProtocolBase()
     rng = check.rng
-    D = decimal.Decimal
-    decs = [D(x) for x in ['0', '-0', '1', '-1', '0.1', '-0.00', '123.450', '1E+10', '1E-7', '1E-6', '1E-5', '12E1', '0E+3',
-                           '0E-10', '1E+30', '9' * 40, '-' + '9' * 40 + '.' + '9' * 40, '1.0E-20', '5E-324', '1E+100',
-                           '0.000001', '0.0000001', '100', '1.10']]
     n = 200 if tier == 'quick' else 4000
-    for _ in range(n):
-        coeff = rng.choice([rng.randint(0, 10 ** 6), rng.randint(0, 10 ** 30)])
-        decs.append(D((rng.randrange(2), tuple(int(c) for c in str(coeff)), rng.randint(-30, 30))))
-    for d in decs:
-        s = prot.to_unicode(Decimal, d)
-        check.count(('dec', str(d)))
-        if len(s) > 1024:
-            continue
-        o = observe(prot.from_unicode, Decimal, s)
-        if o[0] != 'ok' or o[1] != d:
-            check.fail('C08|Decimal|roundtrip', 'Decimal %r written %r read back %r' % (d, s, o), {'value': str(d)})
-        elif not xsd_ok('decimal', s):
-            shape = 'scientific-notation' if 'E' in s.upper() else 'other'
-            check.fail('C08|Decimal|out_lex|%s' % shape, 'Decimal text %r is not a valid xs:decimal' % s, {'value': str(d)})
-    for lit, want in [('1', D(1)), ('+1.', D(1)), ('.5', D('0.5')), ('-0.50', D('-0.5')), ('007.10', D('7.1')), ('0', D(0))]:
-        o = observe(prot.from_unicode, Decimal, lit)
-        check.count(('decl', lit))
-        if xsd_ok('decimal', lit) and o != ('ok', want):
-            check.fail('C08|Decimal|in_lex', 'xs:decimal literal %r read as %r' % (lit, o), {'text': lit})
     dbls = [0.0, -0.0, 1.0, -1.0, 0.1, 1e22, 1e-5, 1e21, 1e16, 123456789.123456789, 5e-324, 1.7976931348623157e308,
             2.2250738585072014e-308, float('inf'), float('-inf'), float('nan'), 1 / 3.0, 2 ** 53 + 0.0, 1e-7]
     for _ in range(n):
@@ -675,13 +658,6 @@ def family_other(check, tier):
         check.count(('dbll', lit))
         if xsd_ok('double', lit) and o != ('ok', want):
             check.fail('C08|Double|in_lex', 'xs:double literal %r read as %r' % (lit, o), {'text': lit})
-    for _ in range(50 if tier == 'quick' else 1000):
-        u = uuid.UUID(int=rng.getrandbits(128))
-        s = prot.to_unicode(Uuid, u)
-        o = observe(prot.from_unicode, Uuid, s)
-        check.count(('uuid', s))
-        if o != ('ok', u):
-            check.fail('C08|Uuid|roundtrip', 'Uuid %r written %r read back %r' % (u, s, o), {'value': str(u)})
     texts = ['', 'a', ' lead', 'trail ', 'a\tb', 'ünï', '中文', '\U0001f600', '<&>', 'x' * 300, '\u0000'[:0] + 'q']
     for _ in range(50 if tier == 'quick' else 1000):
         texts.append(''.join(chr(rng.choice([rng.randint(32, 126), rng.randint(0xa0, 0xd7ff), rng.randint(0x10000, 0x10ffff)]))
@@ -693,39 +669,58 @@ def family_other(check, tier):
             check.count(('txt', T.__name__, t))
             if t != '' and o != ('ok', t):
                 check.fail('C08|%s|roundtrip' % T.__name__, '%s %r written %r read back %r' % (T.__name__, t, s, o), {'value': t})
-    check.sample({'family': 'decimal/double/uuid/unicode (oracle only)', 'decimals': [str(d) for d in decs[:6]],
-                  'doubles': [repr(f) for f in dbls[:6]]})
+    check.sample({'family': 'double/unicode (oracle only)', 'doubles': [repr(f) for f in dbls[:6]]})
 
 
 def run(check):
     tier = check.tier
     check.rule = ('per primitive family: boundary values (all 2^k, 10^k neighbours, fixed-width bounds), '
                   'seeded random values, valid XSD literals from the grammar and a malformed stream; a case is '
-                  'distinct by (operation, type, input)')
+                  'distinct by (operation, type, input); for the regular expressions: generated patterns of the '
+                  'translated fragment x generated strings (generic matcher vs Python re), and every Spyne pattern x '
+                  'the literal streams of its family')
     check.trusted = list(lib.COMMON_TRUSTED) + [
         'translator harness/translate/numtypes.py (validate_native / validate_string / Attributes of number models -> Gen/NumTypes.v)',
         'translator harness/translate/tokens.py (decisive tokens - constants, operators, called methods, except clauses - of the '
-        'modelled *_to_unicode / *_from_unicode / ByteArray codec functions and the date/time/duration regular expressions '
-        '-> Gen/Tokens.v, pinned by the Examples of coq/C08/Pins.v to what the hand-written models transcribe)',
-        'modelled, not verified: CPython int()/str() on text, lxml XMLSchema simple-type validation (used as the XSD oracle)',
+        'modelled *_to_unicode / *_from_unicode / ByteArray codec functions -> Gen/Tokens.v, pinned by the Examples of '
+        'coq/C08/Pins.v to what the hand-written models transcribe)',
+        'translator harness/translate/regexes.py (Python\'s own parse, re._parser.parse, of the date/time/duration/uuid pattern strings '
+        'the imported modules compute -> regex ASTs in Gen/Regexes.v; fail closed outside the fragment)',
+        'the generic backtracking matcher coq/C08/Regex.v is faithful to Python\'s re on the translated fragment: TRUSTED, sampled on '
+        'every run by the correspondence regex_generic (generated patterns x strings) and regex_rx_* (Spyne\'s patterns x literal '
+        'streams); \\d is modelled as ASCII [0-9]',
+        'modelled, not verified: CPython int()/str() on text, decimal.Decimal str()/constructor (libmpdec), uuid.UUID str()/constructor, '
+        'lxml XMLSchema simple-type validation (used as the XSD oracle)',
     ]
-    check.assumptions = ['Decimal, Double (finite values: CPython shortest-repr round trip), Uuid, Unicode and AnyUri are decided by the direct oracle only (standard-library codecs, not modelled in Coq)',
-                         'Unicode decimal digits other than ASCII are outside the modelled int() universe',
-                         'str_format/format customisations are opaque (default formats only)']
-    check.regen(['numtypes', 'tokens'])
+    check.assumptions = ['Double (finite values: CPython shortest-repr round trip), Unicode and AnyUri are decided by the direct oracle only (standard-library codecs, not modelled in Coq)',
+                         'Unicode decimal digits other than ASCII are outside the modelled universe: int(), Decimal(), int(.,16) and the \\d of a str pattern accept them, the models do not',
+                         'str_format/format customisations are opaque (default formats only); Uuid: default serialize_as only; Decimal: default decimal context (capitals=1)',
+                         'Decimal values are within the maximal decimal context (dec_in_limits), as every decimal.Decimal object is',
+                         'strptime(s, \'%Y-%m-%d\') inside date_from_unicode is CPython\'s own pattern: modelled by the hand-written scan_month / scan_day of DtModel.v (tied by correspondence), not translated']
+    check.regen(['numtypes', 'tokens', 'regexes'])
     check.check_sources()
     check.prove('Props.C08', THEOREMS)
+    check.prove('Props.C08_int', ['C08_bounded_plus_sign'])
     check.prove('Props.C08_dt', THEOREMS_DT)
     check.prove('Props.C08_dur', THEOREMS_DUR)
     check.prove('Props.C08_bin', THEOREMS_BIN)
-    # decisive tokens of the modelled codec functions and the regular expressions, regenerated from
-    # the source on every run (Gen/Tokens.v), pinned to what the models transcribe (C08/Pins.v)
+    check.prove('Props.C08_re', THEOREMS_RE)
+    check.prove('Props.C08_dec', THEOREMS_DEC)
+    check.prove('Props.C08_uuid', THEOREMS_UUID)
+    # decisive tokens of the modelled codec functions, regenerated from the source on every run
+    # (Gen/Tokens.v), pinned to what the models transcribe (C08/Pins.v)
     pins = re.findall(r'^Example (pin_\w+)', open(os.path.join(lib.COQ, 'C08', 'Pins.v')).read(), re.M)
     check.prove('C08.Pins', pins)
     family_int(check, tier)
     family_datetime(check, tier)
     family_duration(check, tier)
     family_binary(check, tier)
+    c08_ext.family_decimal(check, tier, observe, xsd_ok)
+    c08_ext.family_uuid(check, tier, observe, xsd_ok)
+    c08_ext.family_regex(check, tier)
+    c08_ext.oracle_fraction_in_lex(check, tier, observe, xsd_ok)
+    c08_ext.oracle_custom_binary_encoding(check, tier, observe, xsd_ok)
+    c08_ext.oracle_plus_sign_integers(check, tier, observe, xsd_ok, INT_TYPES)
     family_other(check, tier)
     lib.flush_correspondences(check)
     return check.finish()
